@@ -15,7 +15,10 @@ RULE = ('(i) every Unicode code point U+0000..U+10FFFF is placed in an '
         'exception message (blocks of 2048 code points per run; a block whose '
         'report does not parse is bisected down to single code points, so each '
         'code point is decided individually), and the same for the BMP in a '
-        'test method name; (ii) a list of hostile strings (markup characters, '
+        'test method name, a test class name, a doctest name, a doctest file '
+        'path and an exception class name, and every code point in doctest '
+        'output (expected/actual diff and an exception raised by an example); '
+        '(ii) a list of hostile strings (markup characters, '
         ']]>, CR/LF, 100 kB, multi-line, lone surrogates in both orders, NUL) '
         'in messages, subtest parameters and method names; (iii) every outcome '
         'kind x --repeat {1,2}: every report must parse with expat, suite '
@@ -25,12 +28,18 @@ RULE = ('(i) every Unicode code point U+0000..U+10FFFF is placed in an '
         'code points)')
 ASSUMPTIONS = [
     'well-formedness is judged by expat (strict XML 1.0 parser)',
-    'doctest cases are covered with one generated DocTestSuite only',
+    'doctest cases are DocTestCase/DocFileCase objects built from generated sources (manuel is not installed)',
+    'code points Python itself refuses in a type name, attribute name or file name (NUL, lone surrogates) are not inputs',
+    'class names are kept below the 255-byte file name limit',
 ]
-BOUND = {'quick': 'all 1114112 code points in messages; BMP code points in method names; 18 strings x 3 places; 16 outcome kinds x repeat{1,2}',
+BOUND = {'quick': 'all 1114112 code points in messages, doctest output and exception class names; BMP code points in method, class, doctest and doctest-file names; 10 doctest shapes; 18 strings x 3 places; 16 outcome kinds x repeat{1,2}',
          'thorough': 'same plus all code points in subtest parameters and two-code-point combinations of the 40 XML-special code points'}
 CHUNK = 2
 BLK = 2048
+CBLK = 64
+DKINDS = ['string:pass', 'string:fail:diff', 'string:fail:exc', 'file:pass',
+          'file:fail:diff', 'file:fail:exc', 'string:fail:diff:dotted',
+          'string:pass:nodot', 'file:pass:deep', 'file:fail:diff:dots']
 
 STRINGS = ['<&>"\'', ']]>', 'a\r\nb', 'x' * 100000, 'line1\nline2\n\nline4',
            '𐀀', '\udc00\ud800', '\x00', 'tab\there', '&amp;<![CDATA[',
@@ -46,6 +55,18 @@ def cases(tier, seed):
         yield ['cp_msg', start, min(0x110000, start + BLK)]
     for start in range(0, 0x10000, BLK):
         yield ['cp_name', start, start + BLK]
+    # class names end up in the suite's name attribute and in the report's
+    # file name (<= 255 bytes): small blocks
+    for start in range(0, 0x10000, CBLK):
+        yield ['cp_cls', start, min(0x10000, start + CBLK)]
+        yield ['cp_dname', start, min(0x10000, start + CBLK)]
+        yield ['cp_dfile', start, min(0x10000, start + CBLK)]
+    for start in range(0, 0x110000, BLK):
+        yield ['cp_dmsg', start, min(0x110000, start + BLK)]
+        yield ['cp_etype', start, min(0x110000, start + BLK)]
+    for k in DKINDS:
+        for rep in (1, 2):
+            yield ['dkind', k, rep]
     for i in range(len(STRINGS)):
         for place in ('msg', 'subp', 'name'):
             yield ['str', i, place]
@@ -123,7 +144,44 @@ def spec_subp(text):
     return {'layers': [], 'tests': [{'n': 'q0', 'l': None, 's': 'sub:1,1,1', 'subp': {'p': text}}]}
 
 
-MAKERS = {'cp_msg': spec_msg, 'cp_name': spec_name, 'cp_subp': spec_subp}
+def spec_cls(text):
+    return {'layers': [], 'tests': [{'n': 'q0', 'cls': 'N' + text, 'l': None, 's': 'fail'},
+                                    {'n': 'q1', 'cls': 'P' + text, 'l': None, 's': 'pass'}]}
+
+
+def spec_dname(text):
+    return {'layers': [], 'tests': [{'n': 'q0', 'dt': 'string', 'dname': 'pk.n' + text + '.f' + text, 'l': None, 's': 'fail'},
+                                    {'n': 'q1', 'dt': 'string', 'dname': 'pk.p' + text + '.p' + text, 'l': None, 's': 'pass'}]}
+
+
+def spec_dfile(text):
+    return {'layers': [], 'tests': [{'n': 'q0', 'dt': 'file', 'dfile': '/vtw/d' + text + '/n' + text + '.txt', 'l': None, 's': 'fail'},
+                                    {'n': 'q1', 'dt': 'file', 'dfile': '/vtw/d' + text + '/p' + text + '.rst', 'l': None, 's': 'pass'}]}
+
+
+def spec_dmsg(text):
+    # line breaks would change what the doctest itself compares
+    text = ''.join(c for c in text if c not in '\n\r\x0b\x0c\x1c\x1d\x1e\x85\u2028\u2029')
+    return {'layers': [], 'tests': [{'n': 'q0', 'dt': 'string', 'l': None, 's': 'fail', 'dk': 'diff', 'msg': text},
+                                    {'n': 'q1', 'dt': 'file', 'l': None, 's': 'fail', 'dk': 'exc', 'msg': text},
+                                    {'n': 'q2', 'dt': 'string', 'l': None, 's': 'pass'}]}
+
+
+def spec_etype(text):
+    return {'layers': [], 'tests': [{'n': 'q0', 'l': None, 's': 'error', 'e': 'Named', 'ename': 'E' + text},
+                                    {'n': 'q1', 'l': None, 's': 'pass'}]}
+
+
+MAKERS = {'cp_msg': spec_msg, 'cp_name': spec_name, 'cp_subp': spec_subp,
+          'cp_cls': spec_cls, 'cp_dname': spec_dname, 'cp_dfile': spec_dfile,
+          'cp_dmsg': spec_dmsg, 'cp_etype': spec_etype}
+# what Python itself refuses in an identifier-ish place (type names, file
+# names): not inputs the runner can ever see
+PY_REJECTS = {'cp_cls': lambda c: c == 0 or 0xd800 <= c <= 0xdfff,
+              'cp_name': lambda c: c == 0,
+              'cp_etype': lambda c: c == 0 or 0xd800 <= c <= 0xdfff,
+              'cp_dfile': lambda c: c == 0 or 0xd800 <= c <= 0xdfff,
+              'cp_dname': lambda c: 0xd800 <= c <= 0xdfff}
 
 
 def bad_codepoints(maker, cps):
@@ -187,6 +245,25 @@ def structure_viol(spec, res, files, rep, why):
     by = {t['n']: t for t in spec['tests']}
     for tid, n in truth.runs.items():
         t = by[tid]
+        if t.get('dt'):
+            # doctests: one testcase per execution, classname/name together
+            # spell the doctest's own name (DocTestCase: dotted name split at
+            # the last dot; DocFileCase: the file's base name), a failure
+            # child exactly when it failed
+            if t['dt'] == 'file':
+                want_name = os.path.basename(t.get('dfile') or '/vtw/%s.txt' % tid)
+                ok = lambda k: k[1] == want_name
+            else:
+                dn = t.get('dname') or 'vtw.tests.d_%s' % tid
+                ok = lambda k: ((k[0] + '.' + k[1]) if k[0] else k[1]) == dn
+            if ILLEGAL.search(t.get('dfile') or t.get('dname') or ''):
+                continue
+            wantk = 'F' if t['s'] == 'fail' else 'P'
+            got = sum(c for k, c in cases_seen.items() if ok(k) and (k[2] == wantk or (wantk == 'F' and k[2] == 'E')))
+            tot = sum(c for k, c in cases_seen.items() if ok(k))
+            if got != n or tot != n:
+                out.append(('doctest_testcase', '%s: doctest %s (%s) ran %d times; %d testcases of kind %s, %d in all; testcases: %s' % (why, tid, t['dt'], n, got, wantk, tot, sorted(cases_seen))))
+            continue
         cls = 'vtw.tests.T_%s' % tid
         mname = 'test_' + t.get('mn', tid)
         if ILLEGAL.search(mname):
@@ -216,9 +293,10 @@ def run_case(case):
     evals = 1
     if kind in MAKERS:
         cps = list(range(a, b))
-        if kind == 'cp_name':
-            # a NUL cannot be part of an attribute name at class creation
-            cps = [c for c in cps if c != 0]
+        rej = PY_REJECTS.get(kind)
+        if rej:
+            # e.g. a NUL cannot be part of an attribute name at class creation
+            cps = [c for c in cps if not rej(c)]
         found, evals = bad_codepoints(MAKERS[kind], cps)
         groups = collections.OrderedDict()
         for cp, why in found:
@@ -250,6 +328,26 @@ def run_case(case):
         rep = 1
         why = 'string #%d %r in %s' % (a, text[:30], place)
         res, files = run_xml(spec)
+    elif kind == 'dkind':
+        rep = b
+        parts = a.split(':')
+        t = {'n': 'q1', 'l': 'A', 'dt': parts[0], 's': parts[1]}
+        if len(parts) > 2 and parts[2] in ('diff', 'exc'):
+            t['dk'] = parts[2]
+        if 'dotted' in parts:
+            t['dname'] = 'a.b.c.d.e'
+        if 'nodot' in parts:
+            t['dname'] = 'plainname'
+        if 'deep' in parts:
+            t['dfile'] = os.path.join(os.getcwd(), 'sub', 'dir.with.dot', 'pkg', 'README.txt')
+        if 'dots' in parts:
+            t['dfile'] = '/vtw/some.egg/pkg/a.b.c.txt'
+        spec = {'layers': [{'n': 'A', 'b': [], 'k': 'c', 'h': ['setUp', 'tearDown']}],
+                'tests': [{'n': 'q0', 'l': None, 's': 'pass'}, t,
+                          {'n': 'q2', 'l': 'A', 's': 'pass'},
+                          {'n': 'q3', 'l': None, 'dt': 'string', 's': 'pass'}]}
+        why = 'doctest %s repeat %d' % (a, rep)
+        res, files = run_xml(spec, ['--repeat', str(rep)] if rep > 1 else [])
     elif kind == 'kind':
         rep = b
         spec = {'layers': [{'n': 'A', 'b': [], 'k': 'c', 'h': ['setUp', 'tearDown']}],
@@ -262,7 +360,7 @@ def run_case(case):
         spec = {'layers': [], 'tests': [{'n': 'q0', 'l': None, 's': 'pass'}], 'bad_modules': ['vtw.broken']}
         why = 'import error'
         res, files = run_xml(spec)
-    sig = {'part': kind, 'what': (a if kind == 'kind' else (b if kind == 'str' else ''))}
+    sig = {'part': kind, 'what': (a if kind in ('kind', 'dkind') else (b if kind == 'str' else ''))}
     vs = check_files(res, files, why)
     if not files and not vs:
         vs.append(('no_report', why))
